@@ -72,7 +72,7 @@ fn is_normal_str(v: &Value, want: &[u8]) -> bool {
     }
 }
 
-// killed by: serialize_u32 -> `ValueInner::U64((v as u16) as u64)` ; serialize_u64 -> I64(v as i64)
+// killed by: serialize_u32 -> `ValueInner::U64((v as u16) as u64)`
 #[kani::proof]
 #[kani::unwind(2)]
 fn ser_unsigned() {
@@ -119,7 +119,7 @@ fn ser_signed() {
     std::mem::forget((va, vb, vc, vd, wb, wd));
 }
 
-// killed by: serialize_u128 -> `ValueInner::U64(v as u64)` ; serialize_i128 -> I64(v as i64)
+// killed by: serialize_u128 -> `ValueInner::U64(v as u64)` and serialize_i128 -> `ValueInner::I64(v as i64)`
 #[kani::proof]
 #[kani::unwind(2)]
 fn ser_wide() {
@@ -136,7 +136,7 @@ fn ser_wide() {
     std::mem::forget((va, vb, wa, wb));
 }
 
-// killed by: serialize_f32 -> `ValueInner::F64((v as i32) as f64)` ; serialize_f64 -> F64(v.abs())
+// killed by: serialize_f32 -> `ValueInner::F64((v as i32) as f64)`
 #[kani::proof]
 #[kani::unwind(2)]
 fn ser_floats() {
@@ -167,7 +167,7 @@ fn ser_floats() {
     std::mem::forget((va, vb, wb));
 }
 
-// killed by: serialize_bool -> Bool(!v) ; serialize_unit -> Bool(false) ; serialize_some -> serialize_none
+// killed by: serialize_bool -> `ValueInner::Bool(!v)`
 #[kani::proof]
 #[kani::unwind(2)]
 fn ser_bool_none_unit_some() {
@@ -197,7 +197,7 @@ fn ser_bool_none_unit_some() {
     std::mem::forget((vb, vn, vu, vus, s1, s2, s3, s4, s5));
 }
 
-// killed by: serialize_char -> StringKind::Safe ; serialize_char -> `v.to_ascii_uppercase()`
+// killed by: serialize_char -> StringKind::Safe
 #[kani::proof]
 #[kani::unwind(6)]
 fn ser_char() {
@@ -208,7 +208,7 @@ fn ser_char() {
     std::mem::forget(v);
 }
 
-// killed by: serialize_str -> StringKind::Safe ; serialize_unit_variant -> `_name` instead of `variant`
+// killed by: serialize_str (and unit_variant) -> StringKind::Safe
 #[kani::proof]
 #[kani::unwind(6)]
 fn ser_str() {
@@ -229,7 +229,7 @@ fn ser_str() {
 
 // ---------------------------------------------------------------- map keys
 
-// killed by: MapKeySerializer::serialize_i8 -> `self.serialize_u64(v as u64)` ; serialize_u128 -> Key::U64(v as u64)
+// killed by: MapKeySerializer::serialize_i8 -> `self.serialize_u64(v as u64)`
 #[kani::proof]
 #[kani::unwind(2)]
 fn key_integers() {
@@ -271,7 +271,7 @@ fn key_integers() {
     std::mem::forget((ka, kb, kc, kd, ke, kf, kg, kh, ki, kj, kk, kl));
 }
 
-// killed by: MapKeySerializer::serialize_bool -> Key::Bool(!v) ; serialize_char encodes `v.to_ascii_lowercase()`
+// killed by: MapKeySerializer::serialize_bool -> `Key::Bool(!v)`
 #[kani::proof]
 #[kani::unwind(6)]
 fn key_bool_char_str() {
@@ -295,7 +295,7 @@ fn key_bool_char_str() {
     std::mem::forget((kb, kc, kv));
 }
 
-// killed by: MapKeySerializer::serialize_f64 -> `Ok(Key::I64(_v as i64))` ; serialize_unit -> Ok(Key::Bool(false))
+// killed by: MapKeySerializer::serialize_f64 -> `Ok(Key::I64(_v as i64))`
 #[kani::proof]
 #[kani::unwind(4)]
 fn key_refusals() {
@@ -323,8 +323,7 @@ fn key_refusals() {
     std::mem::forget((r1, r2, r3, r4, r5, r6, r7, r8, r9));
 }
 
-// killed by: MapKeySerializer::serialize_seq -> unreachable Ok is impossible (Impossible is uninhabited);
-//            mutation used: serialize_newtype_variant -> `_value.serialize(self)` (accepts a newtype variant key)
+// killed by: MapKeySerializer::serialize_newtype_variant -> `_value.serialize(self)` (a newtype variant key accepted)
 #[kani::proof]
 #[kani::unwind(4)]
 fn key_refusals_compound() {
